@@ -15,7 +15,7 @@
    "answers something other than true" includes non-termination of the real validator on
    cyclic damage (the model's OutOfFuel); the property restricts chain damage to acyclic
    chains.
-   OBLIGATIONS: C14_check_sound C14_damage_rejected_by_check C14_damage_rejected_by_detailed C14_detailed_sound C14_validate_is_detailed C14_try_ops_refuse_on_heap C14_try_ops_refuse_unchanged C14_chain_damage_rejected C14_chain_exact C14_nonvacuous C14_legacy_refuted C14_check_total C14_damage_gives_false C14_damage_refused_unchanged C14_detailed_total C14_chain_damage_refused C14_orphan_rejected *)
+   OBLIGATIONS: C14_check_sound C14_damage_rejected_by_check C14_damage_rejected_by_detailed C14_detailed_sound C14_validate_is_detailed C14_try_ops_refuse_on_heap C14_try_ops_refuse_unchanged C14_chain_damage_rejected C14_chain_exact C14_nonvacuous C14_legacy_refuted C14_check_total C14_damage_gives_false C14_damage_refused_unchanged C14_detailed_total C14_chain_damage_refused C14_orphan_rejected C14_damage_operators_rejected C14_any_leaf_damage_rejected C14_orphan_operators_rejected C14_damage_operators_nonvacuous *)
 From BPT Require Import Common.Base Common.AMap Rust.Arena Rust.Tree Rust.Heap Rust.Readers Rust.Run
      Rust.InvDefs Rust.ValidDefs Rust.Damage Rust.ValidSound Rust.ChainExact.
 From Coq Require Import Permutation.
@@ -86,6 +86,7 @@ Definition C14_nonvacuous :=
 
 From BPT Require Import Legacy.RustLegacy.
 From BPT Require Extra.RustExtra2.
+From BPT Require Import Rust.InvDefs Rust.Repr Extra.DamageOps.
 From BPT Require Extra.RustExtra.
 (* the validators as pinned accepted an empty non-root node (repaired in /repo) *)
 Definition C14_legacy_refuted := (d10_refuted, validator_empty_node_refuted).
@@ -132,3 +133,42 @@ Theorem C14_orphan_rejected : forall (V:Type) (h:heap V) tids bids,
    (exists id, a_contains (hbranches h) id = true /\ ~ In id bids)) ->
   check_invariants_detailed h <> Ok None.
 Proof. exact RustExtra2.orphan_rejected. Qed.
+
+(* "Every valid state x every damage operator x every position": for every state satisfying
+   the invariant (every reachable state does: C04) and every edit of Rust/Damage.v that has
+   one of the documented damaging effects at the position it names ([damaging b e] of
+   Extra/DamageOps.v: 19 cases - unsorted / duplicated keys in a leaf or branch, key and value
+   counts differing, node above capacity, non-root node below minimum, key outside its parent's
+   interval, child count wrong, dangling child or root reference, freed node still referenced),
+   check_invariants answers exactly false, the detailed validator / validate_for_operation
+   exactly the tree error, and try_insert / try_remove refuse.  The fuel side condition of the
+   heap-level theorems is discharged here (no edit of these kinds creates a cycle). *)
+Section DamageOperators.
+Variable V : Type.
+
+Theorem C14_damage_operators_rejected : forall (b : bstate V) (e : edit V) k v z,
+  Inv b -> rooms b -> damaging b e ->
+  let h' := apply_edit (flatten b) e in
+  check_invariants h' = Ok false /\ check_invariants_detailed h' = Ok (Some E_TREE) /\
+  validate_for_operation h' = Ok (Some E_TREE) /\
+  hstep h' (OTryInsert k v) = Some (UResOpt None (Some (DataIntegrity E_TREE))) /\
+  hstep h' (@OTryRemove V z) = Some (URes None (Some (DataIntegrity E_TREE))).
+Proof. exact (@DamageOps.damage_operators_refused V). Qed.
+
+(* the generic form behind it: ANY rewrite of a reachable leaf into a locally bad leaf *)
+Theorem C14_any_leaf_damage_rejected : forall (b : bstate V) p id l (f : leaf V -> leaf V),
+  Inv b -> rooms b -> leaf_at (flatten b) p = Some id -> get_leaf (flatten b) id = Some l ->
+  leaf_bad b id (f l) -> rejected (upd_leaf (flatten b) id f).
+Proof. exact (@DamageOps.leaf_damage V). Qed.
+
+(* orphans: an allocated node unreachable from the root is reported by the detailed validator *)
+Theorem C14_orphan_operators_rejected : forall (b : bstate V), Inv b -> rooms b ->
+  check_invariants_detailed (apply_edit (flatten b) (@EOrphanLeaf V)) <> Ok None /\
+  check_invariants_detailed (apply_edit (flatten b) (@EOrphanBranch V)) <> Ok None.
+Proof. intros b I R. split; [exact (DamageOps.edit_EOrphanLeaf_rejected I R)|exact (DamageOps.edit_EOrphanBranch_rejected I R)]. Qed.
+
+End DamageOperators.
+
+(* non-vacuity: a reachable state (20 inserts at capacity 4) and 23 concrete edits, one or more
+   per case of [damaging] *)
+Definition C14_damage_operators_nonvacuous := (DamageOpsExamples.ex_b_valid, DamageOpsExamples.ex_theorem_applies).
